@@ -353,3 +353,5 @@ Section Descent.
   Definition cells_for_edge (segments : list (Z * B)) : list Z :=
     flat_map (fun sg => cells_for_segment (fst sg) (snd sg)) segments.
 End Descent.
+Definition tab_meets (t : list ((Z * Z) * bool)) (e : Z * Z) (target : Z) : bool :=
+  tab_lookup t (fst e) (snd e) false.
